@@ -29,6 +29,10 @@ def run(ctx):
             i = sorted(v["l2b"])[0]
             ctx.violation("missing-stop", "a flow ended at event #%d of %s but an unfinished action it alone owned got no Stop (origin %s)" % (
                 i, base["events"][:i], t["origin"]), dict(base, step=i, sig={"clause": "L2b", "origin_class": oc}))
+        if v.get("l2c"):
+            i = sorted(v["l2c"])[0]
+            ctx.violation("shared-action-stopped", "an action shared with a still-running, untouched flow was sent Stop when another sharer ended, at event #%d of %s (origin %s)" % (
+                i, base["events"][:i], t["origin"]), dict(base, step=i, sig={"clause": "L2c", "origin_class": oc}))
     nontrivial = len(set((t["origin"], tuple(p_v2judge.events_of(t))) for t in traces if len(t["steps"]) >= 3))
     return {"level": LEVEL, "coverage": {
         "states": stats["states"], "transitions": stats["transitions"], "traces_validated_against_impl": len(traces),
